@@ -151,3 +151,25 @@ Example ex_for : lua_for (maxint - 1) maxint 1 = Some [maxint - 1; maxint]. Proo
 Example ex_climb : climb lua_table [TNum 1; TBin OpAdd; TNum 2; TBin OpMul; TNum 3] =
   POk (ABin OpAdd (ANum 1) (ABin OpMul (ANum 2) (ANum 3))) [].
 Proof. reflexivity. Qed.
+
+(* ---------- facts about the scraped ladder that the climb model relies on ---------- *)
+(* every operand position (after a binary operator, after a unary operator, a whole expression) starts at or
+   below the unary rule, so a unary prefix is accepted there, as lparser.c subexpr accepts one under any limit;
+   the unary rule parses its own operand (`-` `-` x); every operator sits at or above the first rule *)
+Lemma ladder_facts :
+  (forall l, nelua_limit l <= nelua_unary_level) /\ nelua_unary_operand_level = nelua_unary_level /\
+  (forall o, 1 <= nelua_level o) /\ (forall o, nelua_level o < nelua_operand_level o \/ nelua_operand_level o <= nelua_level o).
+Proof.
+  repeat split.
+  - intros [|o|]; [|destruct o|]; vm_compute; discriminate.
+  - intros o; destruct o; vm_compute; discriminate.
+  - intros o; destruct o; vm_compute; (left; reflexivity) || (right; discriminate).
+Qed.
+
+(* ---------- order of the effects of `local v1, .., vn = e1, .., em` (VarDecl.v) ---------- *)
+Lemma vardecl_order_refuted : ~ vardecl_order_src_full vardecl_policy.
+Proof. intro F. apply vd_src_iff in F. destruct F as [F _]. discriminate F. Qed.
+Example vardecl_witnesses :
+  vd_effects vardecl_policy false wit_dead_later = [2%nat; 1%nat] /\ src_effects wit_dead_later = [1%nat; 2%nat] /\
+  vd_effects vardecl_policy false wit_asgnret = [2%nat; 1%nat] /\ src_effects wit_asgnret = [1%nat; 2%nat].
+Proof. repeat split; reflexivity. Qed.
